@@ -49,6 +49,8 @@ type Scenario struct {
 	Plan     []simrt.Preempt `json:"plan,omitempty"`
 	First    int             `json:"first,omitempty"`
 	EndCh    []int           `json:"endchoice,omitempty"`
+	Quantum  int64           `json:"quantum,omitempty"` // C15: round-robin time slice in steps (0 = run to completion unless preempted)
+	NoFD     bool            `json:"nofd,omitempty"`    // C15: during the concurrent phase the process is out of file descriptors
 	Replicas []Replica       `json:"replicas,omitempty"`
 	FSFaults []FSFault       `json:"fsfaults,omitempty"`
 	Parts    []string        `json:"parts,omitempty"` // string scenarios: top-level pieces of Ops[0].Src
